@@ -35,9 +35,29 @@ T_p0      == Cfg(2, <<1, 1, 2>>, 0, 3, {}, {<<2, 2>>}, TRUE, TRUE)
 T_s1      == Cfg(0, <<2>>, 2, 3, {}, {<<0, 2>>}, TRUE, TRUE)
 \* ---- negative controls: the code before the fixes
 N_leak    == [T_sink1 EXCEPT !.fix = FALSE]
-S_clean == {C_s1_p2, C_ser_p0, C_ser_p1, C_ser_p2, C_lim2_p2, C_lim2i_p2, C_mix_p2, C_3st_p1, C_4it_p1}
-S_throw == {T_gen, T_sink1, T_sink3, T_mid, T_mid_p2, T_unl, T_unl2, T_two, T_p0, T_s1}
-S_gen2 == {T_gen2}
+N_hang    == [T_gen2 EXCEPT !.fix = FALSE]
+N_single  == [C_s1_p0 EXCEPT !.fix = FALSE]
+S_clean == {C_s1_p0, C_s1_p2, C_ser_p0, C_ser_p1, C_ser_p2, C_lim2_p2, C_lim2i_p2, C_mix_p2, C_3st_p1, C_4it_p1}
+S_throw == {T_gen, T_gen2, T_sink1, T_sink3, T_mid, T_mid_p2, T_unl, T_unl2, T_two, T_p0, T_s1}
+S_cover == {C_cover}
 S_leak == {N_leak}
-S_s1p0 == {C_s1_p0}
+S_hang == {N_hang}
+S_single == {N_single}
+\* ---- C28
+C_gen2    == Cfg(1, <<2, 1>>, 2, 3, {}, {}, FALSE, TRUE)
+S_limit == {C_lim2_p2, C_lim2i_p2, C_ser_p2, C_gen2, C_mix_p2, C_s1_p2, T_sink1, T_mid_p2, T_p0}
+\* ---- larger configurations (thorough; Threads has 3 workers)
+B_lim2_p3 == Cfg(1, <<1, 2>>, 3, 3, {}, {}, FALSE, TRUE)
+B_gen2_p3 == Cfg(1, <<2, 2>>, 3, 3, {}, {}, FALSE, TRUE)
+B_4st     == Cfg(3, <<1, 1, 2, 1>>, 2, 2, {<<1, 2>>}, {}, TRUE, TRUE)
+B_4it     == Cfg(2, <<1, 1, 1>>, 1, 4, {}, {}, TRUE, TRUE)
+B_thr_p3  == Cfg(1, <<2, 1>>, 3, 3, {}, {<<1, 2>>}, FALSE, TRUE)
+B_thr_3st == Cfg(3, <<1, 1, 99, 1>>, 1, 2, {}, {<<2, 1>>}, TRUE, TRUE)
+B_thr_2   == Cfg(2, <<2, 2, 2>>, 2, 3, {}, {<<1, 2>>, <<2, 1>>}, FALSE, TRUE)
+S_clean_big == {B_lim2_p3, B_4st, B_4it}
+S_limit_big == {B_lim2_p3, B_gen2_p3}
+S_throw_big == {B_thr_p3, B_thr_3st, B_thr_2}
+\* ---- liveness
+S_live == {C_cover, C_ser_p1, C_s1_p2, C_ser_p0}
+S_live_throw == {T_gen2, T_sink3, T_gen, T_s1}
 =============================================================================
